@@ -6,8 +6,10 @@ import (
 	"encoding/json"
 	"fmt"
 	"os"
+	"path/filepath"
 	"sort"
 	"strings"
+	"sync/atomic"
 	"testing"
 
 	"pgregory.net/rapid"
@@ -149,7 +151,12 @@ func k11GenScenario(t *rapid.T, g *k11GenState, key int) []k11Op {
 		blocker = g.fresh(key, false)
 		ops = append(ops, k11Op{K: "lock", Key: key, Id: blocker, E: rapid.IntRange(2, 25).Draw(t, "bE"), Cnt: 0})
 	}
-	ops = append(ops, k11Op{K: "hold"})
+	park := rapid.IntRange(0, 3).Draw(t, "parkInsteadOfHold") == 0
+	if park {
+		ops = append(ops, k11Op{K: "parkflush"})
+	} else {
+		ops = append(ops, k11Op{K: "hold"})
+	}
 	g.held = true
 	ack := k11Op{K: "lock", Ack: true, Key: key, Id: g.fresh(key, true), C: 1}
 	ack.T = rapid.SampledFrom([]int{1, 2, 4, 10, 10}).Draw(t, "ackT")
@@ -199,6 +206,10 @@ func k11GenScenario(t *rapid.T, g *k11GenState, key int) []k11Op {
 	default:
 		ops = append(ops, k11Op{K: "release"})
 	}
+	if park {
+		// release (and its faults) are no-ops while parked; the flush is let go instead
+		ops = append(ops, k11Op{K: "unparkflush"})
+	}
 	g.held = false
 	if rapid.Bool().Draw(t, "thenUnlock") {
 		ops = append(ops, k11Op{K: "unlock", Key: key, Id: ack.Id})
@@ -232,6 +243,14 @@ func k11GenSingle(t *rapid.T) *k11Case {
 // k11Exclusions removes by construction what a listed (known, unrepaired) finding would trip over.
 // Returns a note per exclusion made.
 func k11Exclusions(c *k11Case, st *vStat) {
+	if vIsKnown(k11KeyMajority) && c.Kind == "cluster" && c.AckMode == 1 && c.Followers >= 2 {
+		// two follower acks complete a majority count of 2 without the leader's own write: majority mode only with
+		// one follower (steps that address follower 1 become no-ops)
+		c.Followers = 1
+		if st != nil {
+			st.Exclude("majority mode reduced to one follower (known finding " + k11KeyMajority + ")")
+		}
+	}
 	if vIsKnown(k11KeyTwice) && c.AofBuf < 4096 {
 		// a write error that surfaces inside Aof.PushLock (buffer full => Flush inside WriteLock) fails the ack twice
 		for _, o := range c.Ops {
@@ -305,6 +324,9 @@ func k11Classes(in k11Info) []string {
 	add(in.pendingMax > 1, ">1 hold awaiting acknowledgement at once")
 	add(in.queuedBehindPending > 0, "request queued behind an ack-pending hold")
 	add(in.holdPhases > 0, "append-file writers parked by the harness")
+	add(in.parkPhases > 0, "leader's idle flush parked (records buffered and registered, not written)")
+	add(in.parkedWithBuffered > 0, "flush parked with records still buffered at unpark")
+	add(in.parkHookBlocks > 0, "flush blocked at hook point 20 while parked")
 	var fr []string
 	for k := range in.failResults {
 		fr = append(fr, k)
@@ -475,6 +497,14 @@ func k11GenCluster(t *rapid.T) *k11Case {
 				nst++
 			}
 		}
+		parkOdds := 3
+		if c.AckMode == 1 && c.Followers >= 2 {
+			parkOdds = 1 // the configuration in which follower acks alone can reach the count
+		}
+		parked := rapid.IntRange(0, parkOdds).Draw(t, "parkflush") == 0
+		if parked {
+			c.Ops = append(c.Ops, k11Op{K: "parkflush"})
+		}
 		ack := k11Op{K: "lock", Ack: true, Key: key, Id: g.fresh(key, true), C: 1}
 		ack.T = rapid.SampledFrom([]int{2, 4, 10, 10}).Draw(t, "ackT")
 		ack.E = rapid.IntRange(30, 60).Draw(t, "ackE")
@@ -512,11 +542,18 @@ func k11GenCluster(t *rapid.T) *k11Case {
 		case 2:
 			c.Ops = append(c.Ops, k11Op{K: "tick", N: 1})
 		}
+		if parked && rapid.IntRange(0, 3).Draw(t, "unparkFirst") > 0 {
+			c.Ops = append(c.Ops, k11Op{K: "unparkflush"})
+			parked = false
+		}
 		for f := 0; f < c.Followers; f++ {
 			if stalled[f] && rapid.IntRange(0, 4).Draw(t, "unstall") > 0 {
 				c.Ops = append(c.Ops, k11Op{K: "unstall", F: f, Mode: rapid.SampledFrom([]string{"pass", "pass", "negate", "negate", "drop"}).Draw(t, "mode")})
 				stalled[f] = false
 			}
+		}
+		if parked {
+			c.Ops = append(c.Ops, k11Op{K: "unparkflush"})
 		}
 		if rapid.Bool().Draw(t, "thenUnlock") {
 			c.Ops = append(c.Ops, k11Op{K: "unlock", Key: key, Id: ack.Id})
@@ -558,7 +595,23 @@ func TestC11_Cluster(t *testing.T) {
 			return
 		}
 		if err := out.err(); err != nil {
-			vFail(t, "TestC11_Cluster", k11FirstKey(&out), c, "%v", err)
+			// real sockets and goroutines: a verdict is only printed if the same case fails with the same key
+			// again on a fresh cluster (up to 3 more executions); otherwise it is kept as an anomaly, not judged
+			key := k11FirstKey(&out)
+			for i := 0; i < 3; i++ {
+				again := k11RunCluster(c, false)
+				if again.inconclusive == "" && k11FirstKey(&again) == key {
+					vFail(t, "TestC11_Cluster", key, c, "(reproduced on re-execution %d)\n%v", i+1, err)
+				}
+			}
+			st.Class("unreproduced anomaly (not judged)", 1)
+			n := atomic.AddInt64(&k11Anomalies, 1)
+			fn := filepath.Join(os.Getenv("VERIF_FAILDIR"), fmt.Sprintf("C11.anomaly-%d-%d.json", os.Getpid(), n))
+			b, _ := json.MarshalIndent(map[string]interface{}{"test": "TestC11_Cluster", "key": key, "message": err.Error(), "case": c}, "", " ")
+			_ = os.WriteFile(fn, b, 0644)
+			fmt.Printf("VERIF-ANOMALY key=%s file=%s\n", key, fn)
 		}
 	})
 }
+
+var k11Anomalies int64
